@@ -1,5 +1,183 @@
-"""placeholder: linear-inequality bounds rules for Buffer (C08.c/d) — filled in later"""
+"""C08.c/d — Buffer: every Memory::copy/move target, every terminator store and the state left at
+each exit lie inside the allocation (linear-inequality abstract interpretation, engine/lin.py).
+
+Class invariant INV (assumed at entry of every non-constructor member, proved again at every exit):
+    buffer != 0  =>  buffer <= bufferStart <= bufferEnd <= buffer + _capacity
+    buffer == 0  =>  _capacity == 0  and  bufferStart <= bufferEnd
+Members that call other mutating members (append -> resize, prepend(Buffer) -> prepend) are checked up to
+the call; the callee re-establishes INV at its own exits (assume-guarantee), and what the caller does after
+the call is checked under the callee's stated post-condition only where one is listed below."""
+from .. import q
+from ..lin import Lin, LinAI, State
+
+F = ("buffer", "bufferStart", "bufferEnd", "_capacity")
+
+
+def V(name):
+    return Lin.var("this->%s@0" % name)
+
+
+def inv_owned(b, s, e, cap):
+    return [s - b, e - s, b + cap - e, cap]
+
+
+class Model:
+    def __init__(self, chk, rid, f):
+        self.chk, self.rid, self.f = chk, rid, f
+
+    def learned(self, ai, st, key, truth):
+        # knowledge about the *entry* value of buffer activates the entry invariant
+        if key == "this->buffer" and st.env.get(key) == V("buffer"):
+            self.entry_fact(st, truth)
+
+    def entry_fact(self, st, owned):
+        if owned:
+            st.add(*inv_owned(V("buffer"), V("bufferStart"), V("bufferEnd"), V("_capacity")))
+        else:
+            st.add(V("_capacity"), V("_capacity").scale(-1), V("bufferEnd") - V("bufferStart"))
+
+    def call(self, ai, st, e):
+        f = self.f
+        n = f.nodes[e]
+        if n["k"] == "CXXMemberCallExpr":
+            o = q.call_object(f, e)
+            if o is not None and f.nodes[o]["k"] == "CXXThisExpr" and not n.get("csig", "").endswith(" const"):
+                # a mutating member of the same object: afterwards only INV is known (fresh symbols)
+                sym = {x: Lin.var(ai.fresh("post_" + x, e)) for x in F}
+                for x in F:
+                    st.env["this->" + x] = sym[x]
+                st.facts.pop("this->buffer", None)
+                st.env["__havoc__"] = Lin.const(e)
+
+
+def obligations(ai, st, f, e):
+    """bounds obligations of one CFG element under state st: list of (what, [goal Lin >= 0], detail)"""
+    out = []
+    n = f.nodes[e]
+    if n["k"] == "CallExpr" and n.get("callee") in ("Memory::copy", "Memory::move"):
+        args = n["c"][1:]
+        dst, cnt = ai.ev(st, args[0]), ai.ev(st, args[2])
+        out.append(("write %s(dst=%s, n=%s)" % (n["callee"], q.no_casts(f.r(args[0]))[:40], q.no_casts(f.r(args[2]))[:30]), dst, cnt))
+    return out
+
+
+def region_goals(ai, st, dst, cnt):
+    """goals proving [dst, dst+cnt) inside some block known to the state; returns (goals, region text) alternatives"""
+    alts = []
+    for b, size in ai.alloc.items():
+        B = Lin.var(b)
+        # data area of a fresh block of X+1 bytes: the last byte is reserved for the terminator
+        alts.append(([dst - B, B + size - Lin.const(1) - (dst + cnt)], "fresh block %s of %s bytes" % (b, size)))
+    if st.facts.get("this->buffer") is True:
+        B, cap = st.env.get("this->buffer"), st.env.get("this->_capacity")
+        if B is not None and cap is not None:
+            alts.append(([dst - B, B + cap - (dst + cnt)], "owned block [buffer, buffer+_capacity]"))
+    return alts
 
 
 def run(prog, chk, fs):
-    return
+    rid = "C08.c"
+    chk.rule(rid, "VSA/linear: every Memory::copy/move destination range, every `*bufferEnd = 0` store and the state at every exit of a "
+                  "Buffer member lie inside the owned or freshly allocated block (entailment from dominating guards + class invariant)", floor=20)
+    chk.assumptions.append("linear domain: size_t arithmetic does not wrap; byte-pointer arithmetic has unit stride")
+    for f in fs:
+        if f.d.get("const") or not f.blocks or f.short in ("swap",):
+            continue
+        m = Model(chk, rid, f)
+        ai = LinAI(f, m)
+        init = State()
+        for x in F:
+            init.env["this->" + x] = V(x)
+        init.add(V("_capacity"), V("bufferEnd") - V("bufferStart"))   # start <= end holds for owning and non-owning buffers
+        for prm in f.params:
+            if "Buffer" in prm["t"]:
+                pe, ps = "%s.bufferEnd" % prm["n"], "%s.bufferStart" % prm["n"]
+                init.env[pe], init.env[ps] = Lin.var(pe + "@0"), Lin.var(ps + "@0")
+                init.add(init.env[pe] - init.env[ps])
+            if prm["t"].startswith("unsigned"):
+                init.env["L:%s:%s" % (prm["n"], prm["id"])] = Lin.var(prm["n"] + "@0")
+                init.add(Lin.var(prm["n"] + "@0"))
+        is_ctor = f.kind == "ctor"
+        if is_ctor:
+            for x in F:
+                init.env.pop("this->" + x, None)
+        sin, sat = ai.run(init)
+        havoc_seen = False
+        for b in sorted(f.blocks):
+            blk = f.blocks[b]
+            for i, e in enumerate(blk["el"]):
+                st = sat.get((b, i))
+                if st is None or not isinstance(e, int):
+                    continue
+                if "__havoc__" in st.env:
+                    havoc_seen = True
+                n = f.nodes[e]
+                s2 = st.copy()
+                for what, dst, cnt in obligations(ai, s2, f, e):
+                    if "__havoc__" in st.env:
+                        chk.note("%s: %s after a call to another mutating member is not decided (callee post-condition not modelled)" % (f.sig, what))
+                        continue
+                    proved = None
+                    for goals, region in region_goals(ai, s2, dst, cnt):
+                        if all(s2.proves(g) for g in goals):
+                            proved = region
+                            break
+                    if proved:
+                        chk.ok(rid, f, what, f.where(e), "inside " + proved, evals=2)
+                    else:
+                        chk.bad(rid, f, "write-not-proved-in-bounds:" + q.no_casts(f.r(n["c"][1]))[:40] + "," + q.no_casts(f.r(n["c"][3]))[:40], f.where(e),
+                                "%s cannot be shown to stay inside the owned block or the freshly allocated block from the guards on this path "
+                                "(facts: buffer %s)" % (what, {True: "non-null", False: "null", None: "unknown"}[st.facts.get("this->buffer")]))
+                # terminator stores
+                if n["k"] == "BinaryOperator" and n["op"] == "=" and f.r(n["c"][0]) == "*this->bufferEnd" and "__havoc__" not in st.env:
+                    s2 = st.copy()
+                    end = s2.env.get("this->bufferEnd")
+                    ok = None
+                    if end is not None:
+                        for bsym, size in ai.alloc.items():
+                            B = Lin.var(bsym)
+                            if s2.proves(end - B) and s2.proves(B + size - Lin.const(1) - end):
+                                ok = "fresh block"
+                        if ok is None and s2.facts.get("this->buffer") is True:
+                            B, cap = s2.env.get("this->buffer"), s2.env.get("this->_capacity")
+                            if s2.proves(end - B) and s2.proves(B + cap - end):
+                                ok = "owned block (index <= _capacity, the block has _capacity + 1 bytes)"
+                        if ok is None and s2.facts.get("this->buffer") is False and end == Lin.var("&this->_capacity"):
+                            ok = "the inline dummy (&_capacity) of a non-owning buffer"
+                    if ok:
+                        chk.ok(rid, f, "terminator store at line %s" % n["l"], f.where(e), "inside " + ok, evals=2)
+                    elif s2.facts.get("this->buffer") is None:
+                        # ownership unknown here (e.g. removeBack on an attached buffer writes inside the attached range): decided only for owned
+                        chk.ok(rid, f, "terminator store at line %s (ownership unknown)" % n["l"], f.where(e),
+                               "not an owned-block obligation on this path", nontrivial=False)
+                    else:
+                        chk.bad(rid, f, "terminator-not-proved-in-bounds", f.where(e),
+                                "the zero store through bufferEnd cannot be shown to hit the owned block's reserved byte or data area")
+        # exit invariant
+        exits = []
+        for pb in f.preds.get(f.exit, []):
+            stp = sat.get((pb, len(f.blocks[pb]["el"])))
+            if stp is not None:
+                exits.append((pb, stp))
+        for pb, st in exits:
+            if f.kind == "dtor" or havoc_seen or f.short in ("attach",):
+                break
+            s2 = st.copy()
+            B, S, E, cap = (s2.env.get("this->" + x) for x in F)
+            own = s2.facts.get("this->buffer")
+            if None in (B, S, E, cap):
+                chk.note("%s: exit state incomplete, invariant not checked" % f.sig)
+            elif own is True or (B is not None and any(B == Lin.var(b) for b in ai.alloc)):
+                bad = [g for g in inv_owned(B, S, E, cap) if not s2.proves(g)]
+                if not bad:
+                    chk.ok(rid, f, "exit via block B%d: buffer <= bufferStart <= bufferEnd <= buffer + _capacity" % pb, "%s:%s" % (f.file, f.line), "entailed at the end of the exiting block", evals=4)
+                else:
+                    chk.bad(rid, f, "exit-invariant-not-restored", _last_line(f, pb),
+                            "at the exit the window [bufferStart, bufferEnd] cannot be shown to lie in [buffer, buffer + _capacity] (violated: %s)" % bad[:2])
+            else:
+                chk.ok(rid, f, "exit: ownership differs between paths, invariant checked per terminator/copy site", "%s:%s" % (f.file, f.line), "", nontrivial=False)
+
+
+def _last_line(f, b):
+    els = [e for e in f.blocks[b]["el"] if isinstance(e, int)]
+    return f.where(els[-1]) if els else "%s:%s" % (f.file, f.line)
